@@ -46,6 +46,7 @@ func (c *codecX) verifyFxPrims() {
 		!strings.Contains(body("ConsumeByteSliceCopy"), "b.b[")
 	c.fxSafe["ConsumeCount"] = c.fxSafe["ConsumeUint32"] && body("ConsumeCount") == "{ return int(b.ConsumeUint32()) }"
 	c.verifyFxCopyPrims()
+	c.verifyFxBufferReset()
 }
 
 // verifyFxCopyPrims: the two primitives that copy INTO an existing slice (a caller's hint, the Buffer's own
@@ -94,6 +95,78 @@ func (c *codecX) verifyFxCopyPrims() {
 	}
 	u.pf("-- buffer.go: copying into an existing slice transfers ALL of the source (destination grown to len(src) before copy, result resliced to the copied count)\n")
 	u.pf("def fxCopyPrims : List (String × Bool) := [(\"Buffer.UnmarshalBinary\", %s), (\"ConsumeByteSliceCopy\", %s)]\n\n", leanBool(okUnm), leanBool(okCopy))
+}
+
+// verifyFxBufferReset: (*Buffer).Reset must leave a Buffer that is EMPTY in every respect — contents, read offset and
+// the sticky Err — keeping only the storage; the model of a reused Buffer (and of everything that marshals into or
+// decodes from one after Reset) is "Reset gives the state of a fresh Buffer". Accepted bodies:
+//
+//	*b = Buffer{b: b.b[:0]}                       the whole value is replaced, no other field is set
+//	b.b = b.b[:0]; b.off = 0; b.Err = nil         every field of the struct assigned its zero (any order)
+//
+// A body that truncates the slice only (offset or Err survive) is reported, and the fact is emitted as false.
+func (c *codecX) verifyFxBufferReset() {
+	pi, u := c.x.fx, c.u
+	fd := pi.funcDecl("Buffer.Reset")
+	ok := false
+	switch {
+	case fd == nil || fd.Body == nil || fd.Recv == nil || len(fd.Recv.List) != 1 || len(fd.Recv.List[0].Names) != 1 || fd.Type.Params.NumFields() != 0:
+		u.fail("Buffer.Reset: not found, or not a method without parameters on a named receiver")
+	default:
+		b := fd.Recv.List[0].Names[0].Name
+		got := pi.bodyText(fd)
+		if got == "{ *"+b+" = Buffer{ b: "+b+".b[:0], } }" || got == "{ *"+b+" = Buffer{b: "+b+".b[:0]} }" {
+			ok = true
+			break
+		}
+		// field by field: every field of the struct exactly once, with its zero value (the storage truncated)
+		var st *types.Struct
+		if o := pi.pkg.Scope().Lookup("Buffer"); o != nil {
+			st, _ = o.Type().Underlying().(*types.Struct)
+		}
+		want := map[string]bool{}
+		for i := 0; st != nil && i < st.NumFields(); i++ {
+			f := st.Field(i)
+			zero := ""
+			switch t := f.Type().Underlying().(type) {
+			case *types.Basic:
+				if t.Info()&types.IsNumeric != 0 {
+					zero = "0"
+				}
+			case *types.Interface, *types.Pointer, *types.Map:
+				zero = "nil"
+			case *types.Slice:
+				zero = "nil"
+				if f.Name() == "b" {
+					zero = b + ".b[:0]"
+				}
+			}
+			if zero == "" {
+				want = nil
+				break
+			}
+			want[b+"."+f.Name()+" = "+zero] = true
+		}
+		all := want != nil && len(want) > 0 && len(fd.Body.List) == len(want)
+		for _, s := range fd.Body.List {
+			t := pi.nodeText(s)
+			if all && want[t] {
+				delete(want, t)
+			} else {
+				all = false
+			}
+		}
+		if all && len(want) == 0 {
+			ok = true
+			break
+		}
+		u.fail("Buffer.Reset at %s neither replaces the whole Buffer value (*b = Buffer{b: b.b[:0]}) nor assigns every field its zero: the read offset or the sticky Err survive a Reset, and the model's \"a Buffer after Reset is a fresh Buffer\" is not justified: %s", pi.pos(fd), got)
+	}
+	if fd != nil {
+		u.pf("-- source: %s Buffer.Reset\n", pi.pos(fd))
+	}
+	u.pf("-- buffer.go: true iff Reset clears contents, read offset and sticky Err together (whole-value replacement, or every field assigned its zero); only the storage b.b[:0] is kept\n")
+	u.pf("def fxBufferResetClearsAll : Bool := %s\n\n", leanBool(ok))
 }
 
 // typeNameOf: the named type of an expression (through pointers).
